@@ -1922,6 +1922,12 @@ impl CompiledFilter {
         let build_col = build_batch.column(self.build_col_idx);
         let probe_col = probe_batch.column(self.probe_col_idx);
 
+        // NULL is not TRUE: a comparison with a NULL operand never qualifies the pair
+        // (`value()` below reads the raw slot and ignores the validity bitmap).
+        if build_col.is_null(build_row) || probe_col.is_null(probe_row) {
+            return false;
+        }
+
         // Fast path for Int64 (most common for join keys)
         if let (Some(b_arr), Some(p_arr)) = (
             build_col.as_any().downcast_ref::<Int64Array>(),
